@@ -22,9 +22,11 @@ Python → model
   `Name` → `.name`, `Rename` with `children[0] is None` → `.ren (.sym ..)`, `Rename` with
   `children[0] == 'OPERATOR'` → `.ren (.op ..)`, `Generic_Spec` instance
   (`OPERATOR(..)`, `ASSIGNMENT(=)`) → `.generic`, `Dtio_Generic_Spec` instance
-  (`READ(FORMATTED)` …: NOT a Python subclass of `Generic_Spec`) → `.dtio`.
-  `Only.subclass_names` admits nothing else (kernel-checked against the generated
-  `Generated/SymGlueSites.lean`).
+  (`READ(FORMATTED)` …: NOT a Python subclass of `Generic_Spec`, named explicitly in the
+  `isinstance` test since repo commit bf50e4e) → `.dtio`.
+  `Only.subclass_names` admits nothing else, so the final `else: raise InternalError` of the
+  loop is unreachable (kernel-checked against the generated `Generated/SymGlueSites.lean`:
+  `only_alternatives_as_assumed`, `only_loop_branches_as_assumed`).
 * `result[3]` of `Use_Stmt._match` is `""`, `","` or `", ONLY:"` → `UseTail`.
 
 Not modelled: the parsing of the statement text itself (the combinator / expression slices),
@@ -169,8 +171,6 @@ def scopeInStd (std : Std) (k : ScopeKind) : Bool :=
 /-! ## `Use_Stmt.match` -/
 
 inductive Abort where
-  /-- `raise InternalError` in `Use_Stmt.match` (escapes the parser) -/
-  | internalError
   /-- `InternalSyntaxError` of `Intrinsic_Function_Reference.match` → `FortranSyntaxError` -/
   | syntaxError
   /-- `KeyError` out of `generic_function_names[...]` -/
@@ -181,22 +181,23 @@ inductive Abort where
   | symtab
 deriving DecidableEq, Repr
 
-/-- `for child in result[4].children:` of `Use_Stmt.match` -/
-def onlyLoop : List OEntry → Except Abort (List (Str × Option Str))
-  | [] => .ok []
+/-- `for child in result[4].children:` of `Use_Stmt.match`.  (The loop ends with
+    `else: raise InternalError(...)`; no child of an `Only_List` reaches it — see the header.) -/
+def onlyLoop : List OEntry → List (Str × Option Str)
+  | [] => []
   | .name n :: r =>
     -- `only_list.append((child.string, None))`
-    (onlyLoop r).map ((n, none) :: ·)
+    (n, none) :: onlyLoop r
   | .ren (.sym l u) :: r =>
     -- `if not child.children[0]: only_list.append((children[1].string, children[2].string))`
-    (onlyLoop r).map ((l, some u) :: ·)
+    (l, some u) :: onlyLoop r
   | .ren (.op _ _) :: r => onlyLoop r
   | .generic _ :: r =>
-    -- `elif isinstance(child, Generic_Spec): pass`
+    -- `elif isinstance(child, (Generic_Spec, Dtio_Generic_Spec)): pass`
     onlyLoop r
-  | .dtio _ :: _ =>
-    -- `else: raise InternalError("An Only_List can contain only Name, Rename or Generic_Spec …")`
-    .error .internalError
+  | .dtio _ :: r =>
+    -- the same branch (second class of the tuple)
+    onlyLoop r
 
 /-- `for rename in walk(result[4], Rename): if rename.children[0] is None: …append(…)` -/
 def renameLoop : List REntry → List (Str × Str)
@@ -205,13 +206,12 @@ def renameLoop : List REntry → List (Str × Str)
   | .op _ _ :: r => renameLoop r
 
 /-- arguments of `table.add_use_symbols(str(result[2]), only_list, rename_list)` -/
-def useArgs : UseTail →
-    Except Abort (Option (List (Str × Option Str)) × Option (List (Str × Str)))
-  | .plain => .ok (none, none)
+def useArgs : UseTail → Option (List (Str × Option Str)) × Option (List (Str × Str))
+  | .plain => (none, none)
   -- `if "only" in result[3].lower(): only_list = []`
-  | .onlyNothing => .ok (some [], none)
-  | .only es => (onlyLoop es).map fun l => (some l, none)
-  | .renames es => .ok (none, some (renameLoop es))
+  | .onlyNothing => (some [], none)
+  | .only es => (some (onlyLoop es), none)
+  | .renames es => (none, some (renameLoop es))
 
 /-! ## operations on the current scope -/
 
@@ -300,9 +300,7 @@ def logInner (std : Std) (st : St) : List Entity → Except Abort St
 
 def execStmt (std : Std) (st : St) : Stmt → Except Abort St
   | .use mod tail =>
-    match useArgs tail with
-    | .ok (only, rename) => .ok { st with tabs := addUse st.tabs mod only rename }
-    | .error a => .error a
+    .ok { st with tabs := addUse st.tabs mod (useArgs tail).1 (useArgs tail).2 }
   | .decl ts ents =>
     match logInner std st ents with
     | .error a => .error a
@@ -367,6 +365,11 @@ def assumedScoping : Std → List String
 
 /-- `Only.subclass_names`: the classification `OEntry` is exhaustive -/
 def assumedOnlyAlternatives : List String := ["Generic_Spec", "Only_Use_Name", "Rename"]
+
+/-- the `if / elif / else` chain of the only-list loop of `Use_Stmt.match`: classes tested by
+    `isinstance(child, …)` and what the branch does -/
+def assumedOnlyLoopBranches : List (String × String) :=
+  [("Name", "append"), ("Rename", "append"), ("Generic_Spec|Dtio_Generic_Spec", "pass"), ("else", "raise")]
 
 /-- `Primary.subclass_names`: the intrinsic alternative is tried first, `Designator`
     (→ `Part_Ref`) before `Structure_Constructor` before `Function_Reference` -/
